@@ -34,7 +34,7 @@ CASE_TIMEOUT = {'quick': 200, 'thorough': 400}
 
 
 def plan(tier, seed):
-    n = 720 if tier == 'quick' else 3200
+    n = 720 if tier == 'quick' else 6000
     return [{'idx': i} for i in range(n)]
 
 
